@@ -143,7 +143,7 @@ fn main() {
     for _ in 0..count {
         let n = LATTICE[rng.below(LATTICE.len() as u64) as usize];
         let kind = rng.below(3) as i128;
-        let op = rng.below(18) as i128;
+        let op = rng.below(19) as i128;
         if op == 13 && !LIST_LENGTHS.contains(&n) {
             continue;
         }
